@@ -149,6 +149,42 @@ theorem fresh_stream_reconstructs (c : Codec B) (hc : c.RoundTrip) (he : c.EscOK
   | zero => trivial
   | succ m => exact ⟨fun h => Bool.noConfusion h, chained_streamLives s u (a + 1) m⟩
 
+/-- non-positioned subscription behind a channel medium with `KeepLatestPublication`: the delta base
+is the medium's `latestPublication` (the previous broadcast on this node) when the publication was
+published with `UseDelta`, else none -/
+def mediumLives : Option B → List (Bool × Pub B) → List (Option B × Pub B)
+  | _, [] => []
+  | latest, (u, p) :: rest => (if u then latest else none, p) :: mediumLives (some p.data) rest
+
+theorem chained_mediumLives (b : B) (ps : List (Bool × Pub B)) :
+    Chained true (some b) (mediumLives (some b) ps) := by
+  induction ps generalizing b with
+  | nil => trivial
+  | cons e rest ih =>
+    obtain ⟨u, p⟩ := e
+    refine ⟨?_, ih p.data⟩
+    intro _ b' hb
+    cases u <;> simp at hb
+    rw [hb]
+
+/-- a subscriber that joins at any moment (whatever the medium's latest publication and whatever the
+client holds) and then receives every broadcast reconstructs every publication: first one full,
+then deltas against the previous broadcast -/
+theorem medium_stream_reconstructs (c : Codec B) (hc : c.RoundTrip) (he : c.EscOK)
+    (latest held : Option B) (ps : List (Bool × Pub B)) :
+    Client.recvAll c { held := held } (liveRun c false (mediumLives latest ps)) = some (ps.map (·.2.data)) := by
+  have : (mediumLives latest ps).map (·.2.data) = ps.map (·.2.data) := by
+    induction ps generalizing latest with
+    | nil => rfl
+    | cons e rest ih => obtain ⟨u, p⟩ := e; simp [mediumLives, ih]
+  rw [← this]
+  apply live_reconstructs c hc he
+  cases ps with
+  | nil => trivial
+  | cons e rest =>
+    obtain ⟨u, p⟩ := e
+    exact ⟨fun h => Bool.noConfusion h, chained_mediumLives p.data rest⟩
+
 /-- the hypotheses of `stream_delta_reconstructs` are satisfiable by a codec that really patches:
 `create b t = []` when `t = b`, else `0 :: t`. -/
 def exCodec : Codec (List Nat) where
